@@ -245,6 +245,28 @@ pub fn run_c05(rep: &mut Report) {
         }
     }
 
+    // ---- add_word takes a u16: whatever a tree does with junk above bit 10 (the documentation speaks of the bottom 11 bits
+    //      only), a word that is ACCEPTED must carry a valid frame in its bottom 11 bits and yield that frame's data byte
+    {
+        let mut accepted_upper = 0u64;
+        for w in 0x800..=u16::MAX {
+            let got = guarded(|| crate::scan::fresh_ps2().add_word(w));
+            rep.evaluations += 1;
+            if let Ok(Ok(b)) = got {
+                accepted_upper += 1;
+                let low = w & 0x7FF;
+                if frame_expect(low) != Ok(b) {
+                    rep.violate(
+                        format!("C05|add_word|upper-bits|class={}|want={}|got=Ok(0x{:02X})", frame_class(low), frame_res_str(&frame_expect(low)), b),
+                        format!("Ps2Decoder::add_word(0x{:04X}) accepted the word and returned 0x{:02X}, but its frame (bottom 11 bits {}) is {}: the rule gives {}", w, b, word_bits(low), frame_class(low), frame_res_str(&frame_expect(low))),
+                        replay_words(&[w], "Ps2Decoder::add_word", &frame_res_str(&frame_expect(low)), &format!("Ok(0x{:02X})", b)),
+                    );
+                }
+            }
+        }
+        rep.count("words_with_bits_above_bit_10_that_were_accepted_and_checked", accepted_upper);
+    }
+
     clean_run_then_fault(rep, "C05", frame_expect);
 
     // ---- Keyboard::add_word = frame rule ∘ scancode decoder, in every scancode prefix state
